@@ -2,15 +2,15 @@
 // ASSUME: same environment as C11_csr: one modelled thread (do_all sequential, on_each once), enumerated out-index with symbolic destinations/data, FileGraph::fromArrays input with mmap as a heap block, no runtime context installed
 // ASSUME: LargeArray blocks here are PAGE-ROUNDED like the real allocator, with the 2 MB huge page scaled down to 128 bytes (0 bytes -> nullptr): an access is flagged iff it leaves the page-rounded block; every access legal in this model is legal with 2 MB pages
 // ASSUME: one solver query covers a group of 5 consecutive out-index arrays
-// OB: ob_inline_enum tier=quick unwind=14 unwindset=g__ZN6galois6graphs9FileGraph10fromArraysEPmmPvmPcmmmbi.3:26,g__ZN6galois6graphs9FileGraph10fromArraysEPmmPvmPcmmmbi.12:26 timeout=300 params=7 bounds="LC_InlineEdge_Graph<int,uint32_t>: 35 out-index arrays (nodes<=3, edges<=3); destinations, data symbolic" desc="allocateFrom+constructFrom(FileGraph,0,1): node iteration yields numNodes nodes; node k's edges are exactly the input's, in file order, destination = k'-th node handle, data equal"
-// OB: ob_inline_enum_void tier=thorough unwind=14 unwindset=g__ZN6galois6graphs9FileGraph10fromArraysEPmmPvmPcmmmbi.3:26,g__ZN6galois6graphs9FileGraph10fromArraysEPmmPvmPcmmmbi.12:26 timeout=300 params=7 bounds="LC_InlineEdge_Graph<int,void>: 35 out-index arrays (nodes<=3, edges<=3); destinations, data symbolic" desc="allocateFrom+constructFrom(FileGraph,0,1): node iteration yields numNodes nodes; node k's edges are exactly the input's, in file order, destination = k'-th node handle, data equal"
-// OB: ob_inline_enum_e4 tier=thorough unwind=14 unwindset=g__ZN6galois6graphs9FileGraph10fromArraysEPmmPvmPcmmmbi.3:26,g__ZN6galois6graphs9FileGraph10fromArraysEPmmPvmPcmmmbi.12:26 timeout=300 params=5,2 bounds="the 21 out-index arrays with 4 edges" desc="LC_InlineEdge_Graph presents the input (4 edges)"
-// OB: ob_linear_enum tier=quick unwind=14 unwindset=g__ZN6galois6graphs9FileGraph10fromArraysEPmmPvmPcmmmbi.3:26,g__ZN6galois6graphs9FileGraph10fromArraysEPmmPvmPcmmmbi.12:26 timeout=300 params=7 bounds="LC_Linear_Graph<int,uint32_t>: 35 out-index arrays (edges<=3)" desc="readGraph(FileGraph): nodes and per-node edges are exactly the input's, in file order; every access stays inside the (page-rounded) node/edge buffer"
-// OB: ob_linear_enum_void tier=thorough unwind=14 unwindset=g__ZN6galois6graphs9FileGraph10fromArraysEPmmPvmPcmmmbi.3:26,g__ZN6galois6graphs9FileGraph10fromArraysEPmmPvmPcmmmbi.12:26 timeout=300 params=7 bounds="LC_Linear_Graph<int,void>: 35 out-index arrays (edges<=3)" desc="readGraph(FileGraph): nodes and per-node edges are exactly the input's, in file order; every access stays inside the (page-rounded) node/edge buffer"
-// OB: ob_linear_enum_e4 tier=thorough unwind=14 unwindset=g__ZN6galois6graphs9FileGraph10fromArraysEPmmPvmPcmmmbi.3:26,g__ZN6galois6graphs9FileGraph10fromArraysEPmmPvmPcmmmbi.12:26 timeout=300 params=5,2 bounds="the 21 out-index arrays with 4 edges" desc="LC_Linear_Graph presents the input (4 edges)"
-// OB: ob_inout_sym tier=quick unwind=14 unwindset=g__ZN6galois6graphs9FileGraph10fromArraysEPmmPvmPcmmmbi.3:26,g__ZN6galois6graphs9FileGraph10fromArraysEPmmPvmPcmmmbi.12:26 timeout=300 params=7 bounds="LC_InOut_Graph<LC_CSR_Graph<int,uint32_t>> read from ONE file (symmetric mode): 35 out-index arrays (edges<=3)" desc="out-edges are the input; the in-edge view is the same edge list (in_edge_begin/in_edge_end/getInEdgeDst/getInEdgeData)"
-// OB: ob_inout_asym tier=quick unwind=14 unwindset=g__ZN6galois6graphs9FileGraph10fromArraysEPmmPvmPcmmmbi.3:26,g__ZN6galois6graphs9FileGraph10fromArraysEPmmPvmPcmmmbi.12:26 timeout=300 params=7 bounds="LC_InOut_Graph<LC_CSR_Graph<int,uint32_t>> read from TWO files (graph + user-supplied transpose): 35 out-index arrays for the graph; the second file has the same node count and 2 edges split 1+1 between the first and the last node, symbolic destinations/data" desc="out-edges present file 1, in-edges (in_edge_begin/in_edge_end/getInEdgeDst/getInEdgeData) present file 2 exactly, in file order"
-// OB: ob_inout_asym_all tier=thorough unwind=14 unwindset=g__ZN6galois6graphs9FileGraph10fromArraysEPmmPvmPcmmmbi.3:26,g__ZN6galois6graphs9FileGraph10fromArraysEPmmPvmPcmmmbi.12:26 timeout=300 params=7,3 bounds="LC_InOut_Graph<LC_CSR_Graph<int,uint32_t>> read from TWO files (graph + user-supplied transpose): 35 out-index arrays for the graph; the second file is one of 3 fixed shapes with the same node count, symbolic destinations/data" desc="out-edges present file 1, in-edges (in_edge_begin/in_edge_end/getInEdgeDst/getInEdgeData) present file 2 exactly, in file order"
+// OB: ob_inline_enum tier=quick unwind=14 unwindfn=vf_byte_:26 timeout=300 params=7 bounds="LC_InlineEdge_Graph<int,uint32_t>: 35 out-index arrays (nodes<=3, edges<=3); destinations, data symbolic" desc="allocateFrom+constructFrom(FileGraph,0,1): node iteration yields numNodes nodes; node k's edges are exactly the input's, in file order, destination = k'-th node handle, data equal"
+// OB: ob_inline_enum_void tier=thorough unwind=14 unwindfn=vf_byte_:26 timeout=300 params=7 bounds="LC_InlineEdge_Graph<int,void>: 35 out-index arrays (nodes<=3, edges<=3); destinations, data symbolic" desc="allocateFrom+constructFrom(FileGraph,0,1): node iteration yields numNodes nodes; node k's edges are exactly the input's, in file order, destination = k'-th node handle, data equal"
+// OB: ob_inline_enum_e4 tier=thorough unwind=14 unwindfn=vf_byte_:26 timeout=300 params=5,2 bounds="the 21 out-index arrays with 4 edges" desc="LC_InlineEdge_Graph presents the input (4 edges)"
+// OB: ob_linear_enum tier=quick unwind=14 unwindfn=vf_byte_:26 timeout=300 params=7 bounds="LC_Linear_Graph<int,uint32_t>: 35 out-index arrays (edges<=3)" desc="readGraph(FileGraph): nodes and per-node edges are exactly the input's, in file order; every access stays inside the (page-rounded) node/edge buffer"
+// OB: ob_linear_enum_void tier=thorough unwind=14 unwindfn=vf_byte_:26 timeout=300 params=7 bounds="LC_Linear_Graph<int,void>: 35 out-index arrays (edges<=3)" desc="readGraph(FileGraph): nodes and per-node edges are exactly the input's, in file order; every access stays inside the (page-rounded) node/edge buffer"
+// OB: ob_linear_enum_e4 tier=thorough unwind=14 unwindfn=vf_byte_:26 timeout=300 params=5,2 bounds="the 21 out-index arrays with 4 edges" desc="LC_Linear_Graph presents the input (4 edges)"
+// OB: ob_inout_sym tier=quick unwind=14 unwindfn=vf_byte_:26 timeout=300 params=7 bounds="LC_InOut_Graph<LC_CSR_Graph<int,uint32_t>> read from ONE file (symmetric mode): 35 out-index arrays (edges<=3)" desc="out-edges are the input; the in-edge view is the same edge list (in_edge_begin/in_edge_end/getInEdgeDst/getInEdgeData)"
+// OB: ob_inout_asym tier=quick unwind=14 unwindfn=vf_byte_:26 timeout=300 params=7 bounds="LC_InOut_Graph<LC_CSR_Graph<int,uint32_t>> read from TWO files (graph + user-supplied transpose): 35 out-index arrays for the graph; the second file has the same node count and 2 edges split 1+1 between the first and the last node, symbolic destinations/data" desc="out-edges present file 1, in-edges (in_edge_begin/in_edge_end/getInEdgeDst/getInEdgeData) present file 2 exactly, in file order"
+// OB: ob_inout_asym_all tier=thorough unwind=14 unwindfn=vf_byte_:26 timeout=300 params=7,3 bounds="LC_InOut_Graph<LC_CSR_Graph<int,uint32_t>> read from TWO files (graph + user-supplied transpose): 35 out-index arrays for the graph; the second file is one of 3 fixed shapes with the same node count, symbolic destinations/data" desc="out-edges present file 1, in-edges (in_edge_begin/in_edge_end/getInEdgeDst/getInEdgeData) present file 2 exactly, in file order"
 #define VF_C11_PAGE 128
 #include "C11_common.h"
 #include "galois/graphs/LC_CSR_Graph.h"
